@@ -33,7 +33,9 @@
  *   starts with 'x'.
  *
  * Output: one line, fields separated by blanks:
- *   seg<i>=<n>|<trace>|<sends>      per process: number of stdio calls, their log, notifications
+ *   seg<i>=<n>|<trace>|<sends>|<bounds>|<dump>   per process: number of stdio calls, their log,
+ *                                   2.05+Observe messages sent, calls completed after startup
+ *                                   and after each event, resources/observers after startup
  *   crash=<sid>,<sid>,...           (mode E) state id left by a kill after k calls, k = 0..n
  *   st<sid>=<files>                 the six files of that state
  *   rs<sid>=<restart dump>          what a fresh process restores from state sid
@@ -135,7 +137,7 @@ static void sb_hex(sbuf *b, const uint8_t *p, size_t n) {
 /* ------------------------------------------------------------------ server side */
 static coap_context_t *g_ctx;
 static coap_endpoint_t *g_ep;
-static sbuf g_sends;
+static sbuf g_sends, g_bounds, g_startdump;
 static size_t g_seen_out = 0;
 
 static void hnd_get(coap_resource_t *r, coap_session_t *s, const coap_pdu_t *req,
@@ -184,8 +186,8 @@ static char *path_of(const char *name) {
 }
 
 /* every 2.05 with an Observe option that left the server since the last call:
- * <client>/<token>/<value>@<stdio calls completed> */
-static void collect_sends(void) {
+ * <client>/<token>/<value>@<stdio calls completed>#<index of the event> */
+static void collect_sends(int ev) {
   for (; g_seen_out < vn_nout; g_seen_out++) {
     vn_dgram_t *d = &vn_out[g_seen_out];
     if (d->len < 4 || d->data[1] != 69) continue;
@@ -206,7 +208,7 @@ static void collect_sends(void) {
         if (g_sends.n) sb_add(&g_sends, ",");
         sb_add(&g_sends, "%d/", (int)ntohs(d->dst.addr.sin.sin_port) - 41000);
         sb_hex(&g_sends, d->data + 4, tkl);
-        sb_add(&g_sends, "/%u@%ld", v, ps_opcount);
+        sb_add(&g_sends, "/%u@%ld#%d", v, ps_opcount, ev);
       }
       p += ln;
     }
@@ -242,6 +244,7 @@ static void server_start(void) {
                        cs.cfg[2] == 'c' ? path_of("cnt") : NULL, (uint32_t)cs.freq);
 }
 
+static int g_cur_ev = -1;
 static void do_event(event_t *e) {
   if (e->kind[0] == 'I') {
     vn_inject_ep(g_ctx, g_ep, &g_client[e->client & 7], NULL, e->a, e->na);
@@ -294,7 +297,7 @@ static void do_event(event_t *e) {
     }
     coap_lock_unlock(g_ctx);
   }
-  collect_sends();
+  collect_sends(g_cur_ev);
 }
 
 /* names hex, lexicographic */
@@ -416,10 +419,11 @@ static char *slurp_fd(int fd) {
 
 static int g_die_fd = -1;
 static void on_death(void) {
-  collect_sends();
+  collect_sends(g_cur_ev);
   sbuf o = {0, 0, 0};
-  ps_log[ps_log_len] = 0;
-  sb_add(&o, "%ld|%s|%s", ps_opcount, ps_log_len ? ps_log : "-", g_sends.n ? g_sends.s : "-");
+  if (ps_log) ps_log[ps_log_len] = 0;
+  sb_add(&o, "%ld|%s|%s|%s|%s", ps_opcount, ps_log_len ? ps_log : "-", g_sends.n ? g_sends.s : "-",
+         g_bounds.n ? g_bounds.s : "-", g_startdump.n ? g_startdump.s : "-");
   (void)!write(g_die_fd, o.s, o.n);
 }
 
@@ -437,10 +441,21 @@ static char *run_process(const char *dir, int from, int to, long die_at, int wan
     ps_reset(dir, cs.buf, die_at, want_log, -1);
     ps_before_death = want_log ? on_death : NULL;
     g_sends.n = 0;
+    g_bounds.n = 0;
+    g_startdump.n = 0;
     g_seen_out = 0;
+    g_cur_ev = -1;
     server_start();
-    collect_sends();
-    for (int i = from; i < to; i++) do_event(&cs.ev[i]);
+    collect_sends(-1);
+    if (want_log) {
+      dump_resources(&g_startdump);
+      sb_add(&g_bounds, "%ld", ps_opcount);
+    }
+    for (int i = from; i < to; i++) {
+      g_cur_ev = i - from;
+      do_event(&cs.ev[i]);
+      if (want_log) sb_add(&g_bounds, ",%ld", ps_opcount);
+    }
     if (want_log) on_death();
     _exit(0);
   }
@@ -481,10 +496,10 @@ static char *run_restart_dump(const char *dir) {
     g_sends.n = 0;
     g_seen_out = 0;
     server_start();
-    collect_sends();
+    collect_sends(-1);
     sbuf o = {0, 0, 0};
     sb_add(&o, "%ld;", ps_opcount);
-    ps_log[ps_log_len] = 0;
+    if (ps_log) ps_log[ps_log_len] = 0;
     sb_add(&o, "%s;", ps_log_len ? ps_log : "-");
     dump_resources(&o);
     sb_add(&o, ";");
@@ -509,7 +524,7 @@ static char *run_restart_dump(const char *dir) {
         coap_resource_notify_observers(r, NULL);
         coap_check_notify(g_ctx);
       }
-      collect_sends();
+      collect_sends(i);
     }
     sb_add(&o, ";%s", g_sends.n ? g_sends.s : "-");
     (void)!write(pfd[1], o.s, o.n);
@@ -531,9 +546,14 @@ static char *run_restart_dump(const char *dir) {
 }
 
 /* ------------------------------------------------------------------ one case */
+/* bytes of token i, followed by a NUL that is not counted (resource names are C strings in
+ * the library: coap_new_str_const / string literals) */
 static uint8_t *tokb(int i, size_t *n) {
   if (i >= vntok) { *n = 0; return (uint8_t *)calloc(1, 1); }
-  return bytes_of_tok(vtok[i], n);
+  uint8_t *b = bytes_of_tok(vtok[i], n);
+  b = (uint8_t *)realloc(b, *n + 1);
+  b[*n] = 0;
+  return b;
 }
 
 static int parse_case(void) {
